@@ -442,16 +442,65 @@ Definition adler_step (s : N * N) (c : N) : N * N :=
 Definition adler32 (d : bytes) : N := let (a, b) := fold_left adler_step d (1, 0) in b * 65536 + a.
 
 (* sequential scenario: urls are numbered; a url's entry lives at anchor [q_idx u] *)
+(* ------------------------------------------------------------------ refreshing the stored header after a 304
+   Rock::HeaderUpdater (fs/rock/RockHeaderUpdater.cc) and MemStore::updateHeaders: the stale prefix (swap metadata +
+   HTTP header) is read slot by slot until the header is complete; the SPLICING POINT is the slot holding the last
+   header byte, and what that slot holds after the header (the "exchange buffer" / same-slice payload) is re-written
+   behind the fresh prefix into a fresh chain (full slots, last one partly filled), whose last slot is linked to the
+   slot after the splicing point.  The result is a chain with a PARTLY FILLED SLOT IN THE MIDDLE. *)
+Fixpoint splice_tail (sl : list bytes) (n : N) : bytes * list bytes :=
+  match sl with
+  | [] => ([], [])
+  | s :: t => if n <=? lenN s then (dropN n s, t) else splice_tail t (n - lenN s)
+  end.
+
+Definition update_chain (cap : N) (sl : list bytes) (oldp : N) (newp : bytes) : list bytes :=
+  let (tl, rest) := splice_tail sl oldp in
+  let fresh := newp ++ tl in
+  chunks (S (length fresh)) [] cap fresh ++ rest.
+
+(* the fresh chain is written into newly reserved slots; in the model ALL slots of the updated entry are re-reserved
+   (slot identities are not observable); the entry must be idle (openForUpdating needs the exclusive lock of the
+   fresh anchor and the update lock of the stale one) *)
+Fixpoint place (st : state) (ns : list bytes) (acc : list N) : option (state * list N) :=
+  match ns with
+  | [] => Some (st, acc)
+  | s :: t =>
+    match alloc st with
+    | None => None
+    | Some (id, st1) =>
+      place (mkS (s_cap st1) (upd (s_content st1) id s) (s_free st1) (s_scan st1) (s_ents st1) (s_rdrs st1) (s_log st1))
+            t (id :: acc)
+    end
+  end.
+
+Definition update_entry (st : state) (a : N) (oldp : N) (newp : bytes) : state :=
+  match s_ents st a with
+  | Some e =>
+    if idle e && e_complete e && negb (e_dead e) then
+      let ns := update_chain (s_cap st) (chain_of st e) oldp newp in
+      let st0 := release st a e in
+      match place st0 ns [] with
+      | Some (st1, rslots) =>
+        set_ent st1 a (Some (mkE (e_key e) (e_ver e) rslots (lenN (concat ns)) false true false [] [concat ns]))
+      | None => st0
+      end
+    else st
+  | None => st
+  end.
+
 Inductive sop : Type :=
 | SGet (u : N) (key : bytes) (mlen hlen v blen : N) (sizes : list N)    (* plain request; the origin would answer version v *)
 | SReload (u : N) (key : bytes) (mlen hlen v blen : N) (sizes : list N) (* forced refetch *)
-| SPurge (u : N).
+| SPurge (u : N)
+| SUpdate (u : N) (key : bytes) (mlen oldhlen newhlen : N).   (* revalidation answered by a 304 with other headers *)
 
 Inductive sres : Type :=
 | RHit (hdr_len body_len sum : N)
 | RMiss (body_len sum : N)
 | RSwapFail
-| RPurged.
+| RPurged
+| RReval (body_len sum : N).
 
 Record seqst : Type := mkQ { q_st : state; q_idx : N -> option N; q_next : N }.
 
@@ -488,6 +537,24 @@ Definition seq_step (k : kind) (q : seqst) (o : sop) : seqst * sres :=
     | None => seq_store k q u key mlen hlen v blen sizes
     end
   | SReload u key mlen hlen v blen sizes => seq_store k q u key mlen hlen v blen sizes
+  | SUpdate u key mlen oldhlen newhlen =>
+    match q_idx q u with
+    | Some a =>
+      let total := match s_ents (q_st q) a with Some e => e_len e | None => 0 end in
+      let (st', res) := hit (q_st q) (q_next q) a u hits_reqbuf_size (S (S (N.to_nat (total / 1024)))) in
+      match res with
+      | Some raw =>
+        match parse_stored (has_meta k) key raw with
+        | Some (h, b) =>
+          let oldp := (if has_meta k then mlen else 0) + oldhlen in
+          (mkQ (update_entry st' a oldp (mk_prefix k key mlen newhlen)) (q_idx q) (q_next q + 1),
+           RReval (lenN b) (adler32 b))
+        | None => (mkQ (step st' (Evict a)) (upd (q_idx q) u None) (q_next q + 1), RSwapFail)
+        end
+      | None => (mkQ st' (q_idx q) (q_next q + 1), RSwapFail)
+      end
+    | None => (q, RSwapFail)
+    end
   | SPurge u =>
     match q_idx q u with
     | Some a => (mkQ (step (q_st q) (Evict a)) (upd (q_idx q) u None) (q_next q), RPurged)
